@@ -7,7 +7,7 @@ import wave as real_wave
 
 import z3
 
-from symrun.nums import And, Or, Not, Sym, SymInt, ExactInt, cur
+from symrun.nums import And, Or, Not, Sym, SymInt, ExactInt, cur, Unsupported
 from symrun.loader import load_with_fakes
 
 META = {
@@ -59,8 +59,41 @@ _SIZES = {"b": 1, "B": 1, "h": 2, "H": 2, "i": 4, "I": 4, "f": 4, "d": 8}
 
 
 class Packed:
-  """Token for packed bytes: which format/byte order and which elements were handed to the C codec."""
-  def __init__(self, fmt, values): self.fmt, self.values = fmt, list(values)
+  """Token for packed bytes: which format/byte order and which elements were handed to the C codec.  Slicing at item
+  boundaries and concatenation keep the bookkeeping (segments of (order, code, values)); anything finer is outside
+  the stub."""
+  def __init__(self, fmt, values=(), segs=None):
+    if segs is not None:
+      self.segs = segs; return
+    order = fmt[0] if fmt[0] in "<>!=@" else "@"
+    body = fmt[1:] if fmt[0] in "<>!=@" else fmt
+    self.segs = [(order, body.lstrip("0123456789"), list(values))]
+  @property
+  def values(self): return [v for _, _, vs in self.segs for v in vs]
+  @property
+  def orders(self): return {o for o, _, vs in self.segs if vs}
+  @property
+  def codes(self): return {c for _, c, vs in self.segs if vs}
+  def __len__(self): return sum(len(vs) * _SIZES[c] for _, c, vs in self.segs)
+  def __getitem__(self, sl):
+    if not isinstance(sl, slice) or sl.step not in (None, 1): raise Unsupported("byte-level access to packed data")
+    start, stop, _ = sl.indices(len(self))
+    out, pos = [], 0
+    for o, c, vs in self.segs:
+      w = _SIZES[c]
+      lo, hi = max(start, pos), min(stop, pos + len(vs) * w)
+      if lo < hi:
+        if (lo - pos) % w or (hi - pos) % w: raise Unsupported("slice of packed data inside an item")
+        out.append((o, c, vs[(lo - pos) // w:(hi - pos) // w]))
+      pos += len(vs) * w
+    return Packed(None, segs=out)
+  def __add__(self, o):
+    if isinstance(o, Packed): return Packed(None, segs=self.segs + o.segs)
+    if isinstance(o, (bytes, bytearray)) and not o: return self
+    return NotImplemented
+  def __radd__(self, o):
+    if isinstance(o, (bytes, bytearray)) and not o: return self
+    return NotImplemented
 
 
 class FakeStruct:
@@ -105,6 +138,19 @@ class FakeArray:
   def __setitem__(self, i, v): self.data[i] = v
   def __getitem__(self, i): return self.data[i]
   def __len__(self): return len(self.data)
+  @property
+  def itemsize(self): return _SIZES[self.typecode]
+  def _like(self, data):
+    r = FakeArray(self.typecode, data); r.swapped = self.swapped
+    return r
+  def __mul__(self, n): return self._like(self.data * int(n))
+  __rmul__ = __mul__
+  def __add__(self, o):
+    if not isinstance(o, FakeArray) or o.typecode != self.typecode or o.swapped != self.swapped:
+      raise Unsupported("concatenation of unlike arrays")
+    return self._like(self.data + o.data)
+  def append(self, v): self.data.append(v)
+  def extend(self, vs): self.data.extend(vs.data if isinstance(vs, FakeArray) else list(vs))
   def byteswap(self): self.swapped = not self.swapped
   def tobytes(self):
     native = "<" if sys.byteorder == "little" else ">"
@@ -223,10 +269,10 @@ def _decode(chunk, size, dfmt, byte_order):
   """-> (list of values, effective byte order '<' or '>')"""
   native = "<" if sys.byteorder == "little" else ">"
   if isinstance(chunk, Packed):
-    f = chunk.fmt
-    order = f[0] if f[0] in "<>!=@" else "@"
-    eff = {"<": "<", ">": ">", "!": ">", "=": native, "@": native}[order]
-    body = f[1:] if f[0] in "<>!=@" else f
+    effs = {{"<": "<", ">": ">", "!": ">", "=": native, "@": native}[o] for o in chunk.orders}
+    eff = effs.pop() if len(effs) == 1 else ("mixed" if effs else {"<": "<", ">": ">", "!": ">", "=": native, "@": native}[byte_order or "@"])
+    codes = chunk.codes
+    body = str(len(chunk.values)) + (codes.pop() if len(codes) == 1 else "?")
     return list(chunk.values), eff, body
   order = byte_order or "@"
   eff = {"<": "<", ">": ">", "!": ">", "=": native, "@": native}[order]
